@@ -17,17 +17,26 @@ from ..ref import dskfs
 PROP = "C07"
 CHUNK = 8
 
-KINDS = {"ML": (2, 0), "BAS": (0, 0), "ASC": (0, 0xFF), "DAT": (1, 0xFF)}
-HDR = {"ML": 10, "BAS": 3, "ASC": 0, "DAT": 0}
+KINDS = {"ML": (2, 0), "BAS": (0, 0), "ASC": (0, 0xFF), "DAT": (1, 0xFF),
+         # every other (file type, ASCII flag) combination a tape or another tool can hand over
+         "MLA": (2, 0xFF), "DATB": (1, 0), "TXT": (3, 0xFF), "TXTB": (3, 0)}
+HDR = {"ML": 10, "BAS": 3, "ASC": 0, "DAT": 0, "MLA": 10, "DATB": 3, "TXT": 0, "TXTB": 3}
+_BY_CODE = {v: k for k, v in KINDS.items()}
 DEFAULT_ORDER = None
 
 
+def stream_kind(kind):
+    """which stream layout a file kind has on disk: machine-language header+trailer, length header only, or raw"""
+    return "ml" if HDR[kind] == 10 else "basic" if HDR[kind] == 3 else "ascii"
+
+
 def kind_of(s):
+    k = _BY_CODE.get((s["type"], s["dtype"]))
+    if k:
+        return k
     if s["type"] == 2:
         return "ML"
-    if s["dtype"] == 0xFF:
-        return "ASC" if s["type"] == 0 else "DAT"
-    return "BAS"
+    return "ASC" if s["dtype"] == 0xFF else "BAS"
 
 
 def lenclass(s):
@@ -46,7 +55,7 @@ def lenclass(s):
 
 def fspec(kind, n, name="F", ext="BIN", pat="ramp", load=0x0E00, exec_=0x0E10):
     t, d = KINDS[kind]
-    if kind != "ML":
+    if kind not in ("ML", "MLA"):
         load = exec_ = 0
     return C.spec(name, ext, t, d, load, exec_, n, pat)
 
@@ -108,6 +117,10 @@ def cases(tier, seed):
             lens = range(0, 65536)
         for n in lens:
             yield {"k": "write", "files": [fspec(kind, n)], "fill": "default"}
+    for kind in ("MLA", "DATB", "TXT", "TXTB"):
+        for n in (0, 1, 300, 2291, 2294, 2301, 2304, 4600):
+            yield {"k": "write", "files": [fspec(kind, n)], "fill": "default"}
+            yield {"k": "write", "files": [ALPHA[0], fspec(kind, n, "ODD"), ALPHA[5]], "fill": "default"}
     for n in (1, 300, 2294, 4600):
         for pat in ("ff", "00", "ramp7", "dir", "m00.p0"):
             yield {"k": "write", "files": [fspec("ML", n, pat=pat)], "fill": "default"}
@@ -196,7 +209,7 @@ def frag_base_image(bi):
         n = slen - h
         data = C.pattern(n, "ramp")
         files.append({"name": "OLD{}".format(i), "ext": "DAT", "type": t, "dtype": d,
-                      "stream": dskfs.make_stream({"ML": "ml", "BAS": "basic"}.get(kind, "ascii"), data, 0x1000 + i, 0x2000 + i), "chain": chain})
+                      "stream": dskfs.make_stream(stream_kind(kind), data, 0x1000 + i, 0x2000 + i), "chain": chain})
         specs.append(C.spec("OLD{}".format(i), "DAT", t, d, 0x1000 + i if kind == "ML" else 0, 0x2000 + i if kind == "ML" else 0, n, "ramp"))
     return dskfs.write(files), specs
 
